@@ -5,7 +5,7 @@ ops
   {"op":"state","J":[[q,…],…],"r":[q,…]}                                          → "ok"
   {"op":"split","form":"list","eqs":[name,…],"vars":[[name,null|[grid,…]],…]}
   {"op":"split","form":"dict","eqs":[[name,[grid,…]],…],"vars":…}
-      → {"err":…} | {"singular":true} | {"S":…,"rhs":…,"bs":…,"Asp":…,"pcols":…,"scols":…,"eqidx":…}
+      → {"err":…} | {"singular":true} | {"S":…,"rhs":…,"bs":…,"Asp":…,"pcols":…,"scols":…,"eqidx":…,"eqidx_asis":…}
   {"op":"expand","x":[q,…]} | {"op":"expand","solve":true}
       → {"err":"ValueError"} | {"skip":…} | {"X":[q,…]} (+ "full_ok" for solve)
 -/
@@ -23,7 +23,7 @@ structure St where
   /-- reduced system and the full system it was derived from (for `solve`) -/
   last : Option (Mat × Vec × Mat × Vec) := none
 
-def jPair (f : Json → R α) (g : Json → R β) (j : Json) : R (α × β) :=
+def jPair {α β : Type} (f : Json → R α) (g : Json → R β) (j : Json) : R (α × β) :=
   match j with
   | .arr #[a, b] => do pure (← f a, ← g b)
   | _ => throw s!"not a pair: {j.compress}"
@@ -37,6 +37,15 @@ def ofMat (m : Mat) : Json := ofList ofRats m
 
 def vecEq (a b : Vec) : Bool := a.length == b.length && (List.zipWith (fun x y => x == y) a b).all id
 def matEq (a b : Mat) : Bool := a.length == b.length && (List.zipWith vecEq a b).all id
+
+/-- `assembled_equation_indices` as the code leaves it: the `assemble(equations=[name])` calls of the
+    secondary loop overwrite the primary-block indices stored just before, so that after the call
+    the attribute only describes the last secondary equation (if there is one). -/
+def indicesAsCoded (req : EqReq) (eqs : List EqLayout) : List (Nat × List Nat) :=
+  let secs := (List.range eqs.length).filter (fun k => match req.sel k with | .no => true | _ => false)
+  match secs.getLast? with
+  | some k => [(k, List.range' 0 (eqSize (eqs.getD k [])))]
+  | none => eqIndices req 0 0 eqs
 
 def doSplit (st : St) (j : Json) : R (St × Json) := do
   let form ← fStr j "form"
@@ -70,7 +79,8 @@ def doSplit (st : St) (j : Json) : R (St × Json) := do
     let stored : Stored := ⟨inv, b.bs, b.Asp, pcols, scols, totalDofs st.vars⟩
     let out := obj [("S", ofMat S), ("rhs", ofRats rhs), ("bs", ofRats b.bs), ("Asp", ofMat b.Asp),
       ("pcols", ofNats pcols), ("scols", ofNats scols),
-      ("eqidx", ofList (fun p => Json.arr #[ofNat p.1, ofNats p.2]) (eqIndices req 0 0 st.eqs))]
+      ("eqidx", ofList (fun p => Json.arr #[ofNat p.1, ofNats p.2]) (eqIndices req 0 0 st.eqs)),
+      ("eqidx_asis", ofList (fun p => Json.arr #[ofNat p.1, ofNats p.2]) (indicesAsCoded req st.eqs))]
     return ({ st with stored := some (some stored), last := some (S, rhs, st.J, st.r) }, out)
 
 def doExpand (st : St) (j : Json) : R (St × Json) := do
